@@ -85,6 +85,7 @@ const (
 	compoundHeaderOverhead = 2   // Assumed header overhead
 	compoundOverhead       = 2   // Assumed overhead per entry in compoundHeader
 	userMsgOverhead        = 1
+	crcHeaderOverhead      = 5                     // hasCrcMsg type byte + CRC32, added for peers with PMax >= 5
 	blockingWarning        = 10 * time.Millisecond // Warn if a UDP packet takes this long to process
 	maxPushStateBytes      = 20 * 1024 * 1024
 	maxPushStateNodes      = 1024 * 1024      // Each requires conservatively  ~20 bytes when encoded
@@ -802,7 +803,9 @@ func (m *Memberlist) encodeAndSendMsg(a Address, msgType messageType, msg any) e
 // opportunistically create a compoundMsg and piggy back other broadcasts.
 func (m *Memberlist) sendMsg(a Address, msg []byte) error {
 	// Check if we can piggy back any messages
-	bytesAvail := m.config.UDPBufferSize - len(msg) - compoundHeaderOverhead - labelOverhead(m.config.Label)
+	// Budget for the compound header, the length slot of msg itself, and the
+	// checksum header that rawSendMsgPacket may prepend for the recipient.
+	bytesAvail := m.config.UDPBufferSize - len(msg) - compoundHeaderOverhead - compoundOverhead - crcHeaderOverhead - labelOverhead(m.config.Label)
 	if m.config.EncryptionEnabled() && m.config.GossipVerifyOutgoing {
 		bytesAvail -= encryptOverhead(m.encryptionVersion())
 	}
